@@ -93,6 +93,7 @@ inductive Ev
   | apply (op : Nat) (a : Applied)
   | ret (op : Nat) (r : Ret)
   | expire (key : String) (rev : Nat)
+  | texpire (key : String) (rev : Nat)         -- a delete marker aged out
   | extPut (key : String) (rev : Nat) (val : Val)
   | extDelete (key : String) (rev : Nat)
   | wev (w inst rev : Nat) (val : Option Val)       -- none = nats.go's "initial values done" marker
